@@ -310,6 +310,34 @@ def subclass_polling(rep, rng, tier):
                                     viol.append((f"merge-photocurrent:{cls.__name__}", f"{what}: photocurrent is not the p : 1-p mixture"))
                 except Exception as e:      # noqa
                     viol.append((f"merge-raises:{cls.__name__}", f"{lab}: merge raises {type(e).__name__}: {e}"[:200]))
+    # values of other types: a callback returning Python integers, and one whose values are real on some trajectories and
+    # complex on others, in both insertion orders - the averages are the weighted means, whatever came first
+    for cls in (MultiTrajResult,):
+        for order in ([0, 1, 2], [2, 1, 0], [1, 2, 0]):
+            o = {"store_states": False, "store_final_state": False, "keep_runs_results": False}
+            vals = {0: (3, 1.0), 1: (2, 0.25 + 0.5j), 2: (5, 2.0)}        # per trajectory: (integer value, real or complex value)
+            wts = {0: 0.5, 1: 1.5, 2: 1.0}
+            cur = [0]
+            e_int = lambda t, st: vals[cur[0]][0]          # noqa: E731
+            e_mix = lambda t, st: vals[cur[0]][1]          # noqa: E731
+            try:
+                r = cls([e_int, e_mix], o, stats={"run time": 0.0})
+                for j in order:
+                    cur[0] = j
+                    tr = Result([e_int, e_mix], o)
+                    for i, t in enumerate(TL):
+                        tr.add(t, qutip.Qobj(np.diag([1.0, 0.0, 0.0])))
+                    tr.collapse = []
+                    r.add((j, tr, wts[j]))
+                rep.evaluations += 1
+                rep.count("value-types")
+                want_int = sum(wts[j] * vals[j][0] for j in order) / 3
+                want_mix = sum(wts[j] * vals[j][1] for j in order) / 3
+                got_int, got_mix = np.asarray(r.average_expect[0]), np.asarray(r.average_expect[1])
+                if np.abs(got_int - want_int).max() > 1e-12 or np.abs(got_mix - want_mix).max() > 1e-12:
+                    viol.append(("value-types", f"{cls.__name__}: trajectories added in the order {order} with integer-valued and real-then-complex-valued e_ops: averages {got_int[0]}, {got_mix[0]} are not the weighted means {want_int}, {want_mix}"))
+            except Exception as e:      # noqa
+                viol.append(("value-types-raises", f"{cls.__name__}: e_ops with integer / real-or-complex values, insertion order {order}: {type(e).__name__}: {e}"[:240]))
     # expectation operators given as dictionaries: the merged result reports every key's own mixture, whatever the order in
     # which the two operands list their (equal) keys - or the merge is refused
     for cls in (MultiTrajResult, McResult):
